@@ -222,6 +222,66 @@ def oracle(chk, F, pkg, quick):
                 if numpy.abs(G - ana).max() > 2e-3 * ana.max():
                     bad("gaussian:ft:%s:%s" % (ename, par), "centred Gaussian does not map to the analytic Gaussian for n=%d (err %.3g, imag %.3g)"
                         % (n, float(numpy.abs(G - ana).max()), float(numpy.abs(G.imag).max())), n=n)
+    # amplitude classes: the transforms are linear, so every clause holds with the same RELATIVE accuracy for a field of amplitude
+    # 1e-24 or 1e+20 and for tiny / huge sample spacings (nothing in them may compare a value with an absolute threshold)
+    for amp in (1e-17, 1e-24, 1e-150, 1e20, 1e150):
+        for ename, M in entries:
+            for dims, fwd_, inv_ in ((1, M.ft, M.ift), (2, M.ft2, M.ift2)):
+                n = chk.rng.choice([4, 7, 8, 16] if dims == 1 else [3, 4, 8])
+                batch = chk.rng.choice([(), (3,)])
+                d = chk.rng.choice([1.0, 1e-6, 1e6, 0.37])
+                df = 1.0 / (n * d)
+                x = amp * rand_field(nprng, batch + (n,) * dims, "gauss")
+                sc = float(numpy.abs(x).max())
+                chk.oracle_cases += 1
+                chk.count("oracle:amplitude-class:%g" % amp)
+                chk.case(("oracle-amplitude", amp, ename, dims, n, batch, d))
+                rep = dict(n=n, dims=dims, batch=list(batch), delta=d, amplitude=amp, entry=ename)
+                name = "ft" if dims == 1 else "ft2"
+                with numpy.errstate(all="ignore"):
+                    X = fwd_(x, d)
+                    back = inv_(X, df)
+                    back2 = fwd_(inv_(x, df), d)
+                    hom = inv_((0.3 - 1.7j) * x, df)
+                    base = inv_(x, df)
+                if back.shape != x.shape or not numpy.abs(back - x).max() <= TOL * sc:
+                    bad("inverse:i%s∘%s:%s:amplitude" % (name, name, ename), "%s.i%s(%s(x)) ≠ x for a field of amplitude %g (n=%d, δ=%g): relative "
+                        "error %.3g" % (ename, name, name, amp, n, d, float(numpy.abs(back - x).max()) / sc if back.shape == x.shape else -1), **rep)
+                if back2.shape != x.shape or not numpy.abs(back2 - x).max() <= TOL * sc:
+                    bad("inverse:%s∘i%s:%s:amplitude" % (name, name, ename), "%s.%s(i%s(X)) ≠ X for a spectrum of amplitude %g (n=%d, δ_f=%g): "
+                        "relative error %.3g" % (ename, name, name, amp, n, df, float(numpy.abs(back2 - x).max()) / sc if back2.shape == x.shape else -1), **rep)
+                if not numpy.abs(hom - (0.3 - 1.7j) * base).max() <= TOL * 4 * float(numpy.abs(base).max() + 1e-300):
+                    bad("linear:i%s:%s:amplitude" % (name, ename), "%s.i%s(c·X) ≠ c·i%s(X) for a spectrum of amplitude %g (n=%d)" % (ename, name, name, amp, n), **rep)
+                ax = tuple(range(-dims, 0))
+                lhs, rhs = (numpy.abs(x / sc) ** 2).sum(ax) * d ** dims, (numpy.abs(X / sc) ** 2).sum(ax) * df ** dims
+                if not numpy.abs(lhs - rhs).max() <= TOL * float(numpy.abs(lhs).max()):
+                    bad("parseval:%s:%s:amplitude" % (name, ename), "Parseval fails for a field of amplitude %g (n=%d, δ=%g)" % (amp, n, d), **rep)
+    # large stacks: the same clauses per frame when the whole stack is big (4 frames of 256², 3 of 300²) — a code path chosen by total size
+    for batch, n in (((4,), 256), ((3,), 300)) if quick else (((4,), 256), ((3,), 300), ((2, 3), 210), ((5,), 256)):
+        for ename, M in entries[:1] if quick else entries:
+            d = 0.5
+            df = 1.0 / (n * d)
+            x = rand_field(nprng, batch + (n, n), "gauss")
+            chk.oracle_cases += 1
+            chk.count("oracle:large-stack")
+            chk.case(("oracle-large-stack", batch, n, ename))
+            X = M.ft2(x, d)
+            idx = tuple(chk.rng.randrange(b) for b in batch)
+            one = M.ft2(x[idx].copy(), d)
+            sc = float(numpy.abs(one).max())
+            rep = dict(n=n, batch=list(batch), delta=d, entry=ename, frame=list(idx))
+            if X.shape != x.shape or not numpy.abs(X[idx] - one).max() <= TOL * sc:
+                bad("batch:ft2:%s:large-stack" % ename, "%s.ft2 of a %s stack of %dx%d frames: frame %s differs from ft2 of that frame alone by %.3g "
+                    "(scale %.3g)" % (ename, batch, n, n, idx, float(numpy.abs(X[idx] - one).max()) if X.shape == x.shape else -1, sc), **rep)
+                continue
+            lhs, rhs = (numpy.abs(x) ** 2).sum((-1, -2)) * d * d, (numpy.abs(X) ** 2).sum((-1, -2)) * df * df
+            if not numpy.abs(lhs - rhs).max() <= TOL * float(numpy.abs(lhs).max()):
+                bad("parseval:ft2:%s:large-stack" % ename, "per-frame Parseval fails for a %s stack of %dx%d frames" % (batch, n, n), **rep)
+            Y = M.ift2(x, df)
+            onei = M.ift2(x[idx].copy(), df)
+            if Y.shape != x.shape or not numpy.abs(Y[idx] - onei).max() <= TOL * float(numpy.abs(onei).max()):
+                bad("batch:ift2:%s:large-stack" % ename, "%s.ift2 of a %s stack of %dx%d frames: frame %s differs from ift2 of that frame alone"
+                    % (ename, batch, n, n, idx), **rep)
     # 2-D
     for n in [1, 2, 3, 4, 5, 6, 7, 8, 9, 16, 17] + ([] if quick else [31, 32, 33, 64]):
         par = "odd" if n % 2 else "even"
